@@ -715,6 +715,26 @@ def noalloc_transform(t):
     return t
 
 
+def call_name(pid, kind):
+    """Every seventh invocation names the macro by path instead of relying on the glob import."""
+    return "::join::" + kind if pid % 7 == 4 else kind
+
+
+def in_context(pid, stmt):
+    """Places the statements that evaluate the macro inside a generic function, a closure, a method, or leaves them in a
+    plain function body: the expansion must not depend on the item it stands in."""
+    k = pid % 7
+    if k == 1:
+        return "fn __g<T: Default>() -> String { let _t = T::default(); %s } __g::<u8>()" % stmt
+    if k == 2:
+        return "let __c = || -> String { %s }; __c()" % stmt
+    if k == 3:
+        return "struct __S; impl __S { fn m(&self) -> String { %s } } __S.m()" % stmt
+    if k == 6:
+        return "trait __T { fn m(&self) -> String { %s } } struct __S; impl __T for __S {} __S.m()" % stmt
+    return stmt
+
+
 def render_prog(p, mode="twin"):
     """Returns (source of m_N and r_N, twin table entry) or None if the program cannot be rendered for its kind."""
     kind = p.kind
@@ -818,12 +838,17 @@ def render_prog(p, mode="twin"):
         entry = "Twin { id: %d, kind: %s, m: m_%d, r: r_%d, srcs: &[%s], branches: &[%s], tags: %s, text: %s, reference: %s, max_id: %d }" % (
             p.id, rs(kind), p.id, p.id, srcs, brs, rs(",".join(sorted(p.tags | {"noalloc"}))), rs(noalloc_transform(dsl)), rs(noalloc_transform(ref_body)), p.max_id)
         return noalloc_transform(m_fn + "\n" + r_fn), entry
+    # the invocation stands in different syntactic / item contexts (only the macro side; the reference stays plain)
     if asy:
-        m_fn = "pub fn m_%d() -> String { run_async(async { let __res: %s = %s! { %s }.await; dbg(__res) }) }" % (p.id, rty, kind, dsl)
+        stmt = "run_async(async { let __res: %s = %s! { %s }.await; dbg(__res) })" % (rty, call_name(p.id, kind), dsl)
         r_fn = "pub fn r_%d() -> String { run_async(async { dbg({ %s }) }) }" % (p.id, ref_body)
     else:
-        m_fn = "pub fn m_%d() -> String { let __res: %s = %s! { %s }; dbg(__res) }" % (p.id, rty, kind, dsl)
+        if p.id % 7 == 5:
+            stmt = "dbg::<%s>(%s! { %s })" % (rty, call_name(p.id, kind), dsl)           # argument position
+        else:
+            stmt = "let __res: %s = %s! { %s }; dbg(__res)" % (rty, call_name(p.id, kind), dsl)
         r_fn = "pub fn r_%d() -> String { dbg({ %s }) }" % (p.id, ref_body)
+    m_fn = "pub fn m_%d() -> String { %s }" % (p.id, in_context(p.id, stmt))
     srcs = ", ".join("(%d, %d)" % s for s in p.srcs)
     brs = ", ".join("(%d, %d)" % b[4] for b in p.branches)
     entry = "Twin { id: %d, kind: %s, m: m_%d, r: r_%d, srcs: &[%s], branches: &[%s], tags: %s, text: %s, reference: %s, max_id: %d }" % (
@@ -1120,6 +1145,14 @@ def shadow_wrap(body):
             "    mod core {}\n    mod alloc {}\n    mod join {}\n\n" + body + "\n}\n")
 
 
+def edition_for(tag):
+    """Corpora of odd seeds are compiled as edition-2021 crates, those of even seeds as edition 2018: the macro's output
+    takes the edition of the calling crate (closure captures, prelude, reserved syntax differ)."""
+    import re
+    digits = re.sub(r"\D", "", tag)
+    return "2021" if digits and int(digits) % 2 == 1 else "2018"
+
+
 def write_crate(outdir, join_repo, vrt_path, progs, nshards=16, tag="x", skip=()):
     import os
     os.makedirs(os.path.join(outdir, "src", "bin"), exist_ok=True)
@@ -1127,7 +1160,7 @@ def write_crate(outdir, join_repo, vrt_path, progs, nshards=16, tag="x", skip=()
         f.write("""[package]
 name = "zoo_corpus"
 version = "0.1.0"
-edition = "2018"
+edition = "%s"
 
 [dependencies]
 join = { path = "%s/join" }
@@ -1141,7 +1174,7 @@ incremental = false
 opt-level = 0
 
 [workspace]
-""" % (join_repo, vrt_path))
+""" % (edition_for(tag), join_repo, vrt_path))
     shards = [[] for _ in range(nshards)]
     for i, p in enumerate(progs):
         if p.id in skip:
